@@ -572,6 +572,16 @@ struct WarmUpHandle {
     output_rx: Receiver<TaskResult<std::io::Result<WarmUpOutput>>>,
 }
 
+impl Drop for WarmUpHandle {
+    fn drop(&mut self) {
+        // Stop the warm-up worker and wait for it, so that a session which is dropped without
+        // being finished does not leave a task behind that keeps the store (and the directory
+        // lock) alive. After `update_and_prove` the worker is gone already and this is a no-op.
+        let _ = self.finish_tx.try_send(());
+        let _ = self.output_rx.recv();
+    }
+}
+
 fn spawn_warm_up<H: HashAlgorithm>(
     worker_tp: &ThreadPool,
     params: worker::WarmUpParams,
